@@ -40,7 +40,7 @@ REACH = {
     "quick": {"date_values": 30000, "time_millis_values": 50000, "time_micros_values": 20000,
               "timestamp_values": 40000, "local_timestamp_values": 10000, "uuid_values": 2000,
               "decimal_cases": 20000, "decimal_must_raise": 2000, "decimal_must_succeed": 8000,
-              "decimal_neg_zero": 50, "decimal_fixed_boundary": 200, "decimal_by_reference": 500, "decimal_piecewise_files": 500, "subsecond_offsets": 500, "decimal_in_float_unions": 500, "decimal_rejection_recovery": 200, "decimal_goes_to_later_branch": 300},
+              "decimal_neg_zero": 50, "decimal_fixed_boundary": 200, "decimal_by_reference": 500, "decimal_piecewise_files": 500, "subsecond_offsets": 500, "decimal_in_float_unions": 500, "decimal_rejection_recovery": 200, "decimal_goes_to_later_branch": 300, "phases_under_another_time_zone": 6},
     "thorough": {"date_values": 3652059, "time_millis_values": 86400000},
 }
 EPOCH_ORD = dt.date(1970, 1, 1).toordinal()
@@ -263,6 +263,8 @@ def timestamps(sh, fa, rng, spec):
             if not batch(sh, fa, js, vals[i:i + 20000], raw, back, "timestamp_values", lt):
                 return
         sh.count("timestamp_pre_epoch", sum(1 for v in vals if RL.micros_of_aware(v) < 0))
+        if spec.get("other_tz"):
+            continue  # what follows is the one part that is meant to depend on the process time zone
         # naive datetimes under the plain timestamp types (TZ=UTC)
         nv = rand_instants(rng, n // 3)
         # the first and the last day of the datetime range included (TZ=UTC)
@@ -386,15 +388,19 @@ def decimals(sh, fa, rng, spec):
             if maxp < 1:
                 continue
             p = rng.randint(1, min(maxp, 40))
-            s = rng.randint(0, p)
+            s = rng.randint(0, p) if rng.random() < 0.85 else 0
             js = {"type": "fixed", "name": "Dec", "size": size, "logicalType": "decimal", "precision": p, "scale": s}
+            if s == 0 and rng.random() < 0.5:
+                del js["scale"]  # an omitted scale is zero
+                sh.count("decimal_scale_omitted")
         else:
             size = None
             p = rng.randint(1, 40)
-            s = rng.randint(0, p)
+            s = rng.randint(0, p) if rng.random() < 0.85 else 0
             js = {"type": "bytes", "logicalType": "decimal", "precision": p, "scale": s}
-            if s == 0 and rng.random() < 0.3:
+            if s == 0 and rng.random() < 0.5:
                 del js["scale"]
+                sh.count("decimal_scale_omitted")
         st, parsed = guard(fa.parse_schema, js)
         if st == "exc":
             sh.violation("parse-rejected-valid-schema", exc_name(parsed), {"schema": js})
@@ -569,6 +575,24 @@ def run_shard(spec):
         return sh.result()
     for fn in (dates, times, timestamps, uuids, decimals):
         sh.run_case(fn, sh, fa, rng, spec)
+    if spec["shard"] % 4 in (1, 2) and not sh.violations:
+        # nothing but the naive datetimes under timestamp-* depends on the process time zone: dates,
+        # times of day, aware and local timestamps once more east / west of UTC (POSIX notation,
+        # no zone database needed)
+        import os, time
+        old_tz = os.environ.get("TZ")
+        os.environ["TZ"] = "IST-5:30" if spec["shard"] % 4 == 1 else "XST+9:30"
+        time.tzset()
+        try:
+            for fn in (dates, times, timestamps):
+                sh.run_case(fn, sh, fa, rng, dict(spec, other_tz=True))
+            sh.count("phases_under_another_time_zone", 3)
+        finally:
+            if old_tz is None:
+                os.environ.pop("TZ", None)
+            else:
+                os.environ["TZ"] = old_tz
+            time.tzset()
     sh.sample({"date": "0001-01-01..9999-12-31", "aware": str(dt.datetime(1969, 12, 31, 23, 59, 59, 999999, tzinfo=dt.timezone(dt.timedelta(seconds=-86399)))),
                "decimal": "Decimal('-0') under fixed size 4 precision 1"})
     return sh.result()
